@@ -4,6 +4,19 @@
   Property theorems only (helper lemmas: PW/Lemmas/Composite.lean, PW/Lemmas/CompositeSpec.lean).
   Everything is over an arbitrary linearly ordered field `K` (hence ℚ and ℝ at once).
 
+  KNOWN FINDING (key `roundtrip/non-affine-explicit-matrix`).  `append_transform` accepts every 4×4 matrix, also
+  one whose last row is not 0 0 0 1, and `apply_transform` drops `w` without dividing.  For such an accepted,
+  exactly invertible step the clauses "call = the steps' 3-D actions one after another" and "reverse undoes"
+  are FALSE on the code and on this model (which mirrors it).  Therefore:
+    * the full, unrestricted clauses are kept as `def C03_call_eq_fold_full : Prop`, `def C03_reverse_roundtrip_full : Prop`;
+    * `C03_call_eq_fold_defect_witness`, `C03_reverse_roundtrip_defect_witness` prove their negation on the concrete
+      input  a = I with a[3,0] = 1;  append_transform(a); translate([1,0,0]);  p = (1,0,0)  (call gives (3,0,0),
+      step by step gives (2,0,0); reverse of (3,0,0) gives (2,0,0) ≠ p);
+    * the theorems below that carry `cmd.Affine` hypotheses (`C03_call_eq_fold`, `C03_reverse_eq_fold`,
+      `C03_reverse_roundtrip(_history)`, `C03_vector_mode`, `apply_compose`) are the **partial** versions of those
+      clauses: they hold for every history whose explicit matrices have last row 0 0 0 1 (all builders do, `builder_affine`).
+    The matrix clauses (`C03_matrix_inverse`, `C03_matrix_eq_fold`, `apply_compose_homogeneous`) need no such hypothesis.
+
   Vocabulary (PW.Lemmas.CompositeSpec):
     `cmd.build`       the (forward, inverse) pair an appending call stores, or the exception it raises
     `cmd.action av p` the *documented* effect of the step on the point `p` (`av`: treat as vector)
@@ -403,6 +416,78 @@ theorem C03_reverse_roundtrip_history (h : List (StepCmd K)) (hw : ∀ cmd ∈ h
       (Composite.exec [] h).1.callPoint r false av ((Composite.exec [] h).1.callPoint r true av p) = p :=
   C03_reverse_roundtrip _ (fun s hs => (C03_history_pairs h hw haff s hs).1)
     (fun s hs => (C03_history_pairs h hw haff s hs).2) r av p
+
+/-! ### the unrestricted clauses and their defect witnesses (known finding `roundtrip/non-affine-explicit-matrix`) -/
+
+/-- the full clause "call = documented step actions applied one after another", for *every* accepted history
+    (no affinity hypothesis).  False: `C03_call_eq_fold_defect_witness`.  Partial version: `C03_call_eq_fold`. -/
+def C03_call_eq_fold_full : Prop :=
+  ∀ (K : Type) [Field K] [LinearOrder K] [IsStrictOrderedRing K] (h : List (StepCmd K)) (start stop : Nat),
+    start ≤ stop → stop ≤ (acceptedCmds h).length → ∀ (av : Bool) (p : V3 K),
+      (Composite.exec [] h).1.callPoint (some ((start : Int), (stop : Int))) false av p =
+        ((acceptedCmds h).extract start stop).foldl (fun q cmd => cmd.action av q) p
+
+/-- the full clause "reverse=True on the result returns the original points", for every history whose stored
+    inverses are inverses (no affinity hypothesis).  False: `C03_reverse_roundtrip_defect_witness`.
+    Partial version: `C03_reverse_roundtrip_history`. -/
+def C03_reverse_roundtrip_full : Prop :=
+  ∀ (K : Type) [Field K] [LinearOrder K] [IsStrictOrderedRing K] (h : List (StepCmd K)),
+    (∀ cmd ∈ h, cmd.WellFormed) → ∀ (r : Option (Int × Int)) (av : Bool) (p : V3 K),
+      (Composite.exec [] h).1.callPoint r true av ((Composite.exec [] h).1.callPoint r false av p) = p
+
+/-- the accepted, exactly invertible, non-affine matrix of the witness: identity with entry [3,0] = 1 -/
+def witnessMatrix : M4 ℚ := ⟨⟨1, 0, 0, 0⟩, ⟨0, 1, 0, 0⟩, ⟨0, 0, 1, 0⟩, ⟨1, 0, 0, 1⟩⟩
+/-- its inverse -/
+def witnessInverse : M4 ℚ := ⟨⟨1, 0, 0, 0⟩, ⟨0, 1, 0, 0⟩, ⟨0, 0, 1, 0⟩, ⟨-1, 0, 0, 1⟩⟩
+/-- `append_transform(a, a⁻¹); translate([1,0,0])` -/
+def witnessHistory : List (StepCmd ℚ) := [.appendTransform witnessMatrix witnessInverse, .translate ⟨1, 0, 0⟩]
+
+theorem witnessHistory_wellFormed : ∀ cmd ∈ witnessHistory, cmd.WellFormed := by
+  intro cmd hc
+  simp only [witnessHistory, List.mem_cons, List.not_mem_nil, or_false] at hc
+  rcases hc with rfl | rfl
+  · constructor <;> simp only [m4_mul_def, m4_one_def] <;> ext <;>
+      simp [witnessMatrix, witnessInverse, M4.mul, M4.one, V4.dot, M4.col0, M4.col1, M4.col2, M4.col3]
+  · trivial
+
+theorem witnessHistory_state :
+    (Composite.exec [] witnessHistory).1 = [(witnessMatrix, witnessInverse), translationMatrix ⟨1, 0, 0⟩] := rfl
+
+/-- concrete values: the call sends (1,0,0) to (3,0,0); step by step it is (2,0,0); the reverse call sends
+    (3,0,0) to (2,0,0). -/
+theorem witness_values :
+    (Composite.exec [] witnessHistory).1.callPoint none false false ⟨1, 0, 0⟩ = ⟨3, 0, 0⟩ ∧
+      (Composite.exec [] witnessHistory).1.callPoint none true false ⟨3, 0, 0⟩ = ⟨2, 0, 0⟩ ∧
+      (acceptedCmds witnessHistory).foldl (fun q cmd => cmd.action false q) (⟨1, 0, 0⟩ : V3 ℚ) = ⟨2, 0, 0⟩ := by
+  rw [witnessHistory_state]
+  refine ⟨?_, ?_, ?_⟩
+  · ext <;> simp [Composite.callPoint, Composite.transformMatrixFor, Composite.matrices, Composite.selected,
+      composeTransforms, applyTransform, translationMatrix, witnessMatrix, M4.mul, M4.mulVec, V4.dot, V4.xyz,
+      M4.col0, M4.col1, M4.col2, M4.col3] <;> norm_num
+  · ext <;> simp [Composite.callPoint, Composite.transformMatrixFor, Composite.matrices, Composite.selected,
+      composeTransforms, applyTransform, translationMatrix, witnessInverse, M4.mul, M4.mulVec, V4.dot, V4.xyz,
+      M4.col0, M4.col1, M4.col2, M4.col3] <;> norm_num
+  · have h1 : acceptedCmds witnessHistory = witnessHistory := rfl
+    rw [h1]
+    ext <;> simp [witnessHistory, StepCmd.action, applyTransform, witnessMatrix, M4.mulVec, V4.dot, V4.xyz] <;> norm_num
+
+/-- **defect witness**: the reverse call does not undo the forward call for an accepted, exactly invertible
+    explicit matrix whose last row is not 0 0 0 1. -/
+theorem C03_reverse_roundtrip_defect_witness : ¬ C03_reverse_roundtrip_full := by
+  intro hfull
+  have h := hfull ℚ witnessHistory witnessHistory_wellFormed none false ⟨1, 0, 0⟩
+  rw [witness_values.1, witness_values.2.1] at h
+  have := congrArg V3.x h
+  norm_num at this
+
+/-- **defect witness**: for the same history the call is not the step-by-step 3-D action. -/
+theorem C03_call_eq_fold_defect_witness : ¬ C03_call_eq_fold_full := by
+  intro hfull
+  have hl : (acceptedCmds witnessHistory).length = 2 := rfl
+  have h := hfull ℚ witnessHistory 0 2 (by norm_num) (by rw [hl]) false ⟨1, 0, 0⟩
+  rw [← hl, ← C03_call_all witnessHistory false false, witness_values.1, extract_full, witness_values.2.2] at h
+  have := congrArg V3.x h
+  norm_num at this
 
 /-! ### 5. vector mode, stacks, discard_z, returned indices -/
 
